@@ -136,7 +136,7 @@ def gen_case(seed, tier):
             steps.append({"s": "hostile", "h": rng.randrange(8)})
         else:
             steps.append({"s": "zone_mut"})
-    return {"prop": PROP, "seed": seed, "cfg": cfg, "base": base, "steps": steps, "btree_t": btree_t, "empty_rdataset": rng.random() < 0.15}
+    return {"prop": PROP, "seed": seed, "cfg": cfg, "base": base, "steps": steps, "btree_t": btree_t, "empty_rdataset": rng.random() < 0.15, "policy_returns": rng.choice(["bool", "bool", "nonbool"])}
 
 
 # ---------------------------------------------------------------------------
@@ -227,7 +227,11 @@ class _World:
     def _wrap_policy(self):
         def policy(zone, version):
             self.policy_calls += 1
-            return self.policy(version.id, len(zone._versions))
+            r = self.policy(version.id, len(zone._versions))
+            if self.case.get("policy_returns") == "nonbool":
+                # the documented return type is `bool | None`: None (or any falsy value) means keep
+                return 1 if r else (None if version.id % 2 else 0)
+            return r
 
         return policy
 
